@@ -1853,9 +1853,21 @@ def ask_tomography(ctx, J, rng, rec, tag):
         return
     ctx.truth("num_variables.requested-configuration", is_int(nv) and int(nv) == want, key=f"{kfl}:differs-from-count-of-requested-configuration" + tag,
               info=dict(info0, got=repr(nv), want=want))
-    for k in range(2):      # two different vectors in a row: the second answer must be for the second vector
+    first_arr = None
+    tag0 = tag
+    for k in range(3):      # different vectors in a row: every answer must be for the vector given in that call;
+        #                     the second one arrives in the caller's FIRST array object, refilled in place
         var = rand_var(rng, want, "distinct" if k == 0 else "gauss")
-        ok, o = ctx.attempt(tomo.convert_var_to_qoperation, var.copy())
+        if k == 0:
+            arr = first_arr = var.copy()
+        elif k == 1:        # immediately afterwards: the same array object, other contents
+            first_arr[:] = var
+            arr = first_arr
+            tag = tag0 + ":caller-array-refilled"
+        else:
+            arr = var.copy()
+            tag = tag0
+        ok, o = ctx.attempt(tomo.convert_var_to_qoperation, arr)
         if not ok:
             ctx.violation(f"{cn}.convert_var_to_qoperation:{fl(flag)}:{ctx.exc_key(o)}" + tag, info0)
             continue
@@ -1866,6 +1878,7 @@ def ask_tomography(ctx, J, rng, rec, tag):
         ok, back = ctx.attempt(o.to_var)                        # hooked
         if ok:
             ctx.num("roundtrip.var-obj-var", relerr(back, var), TOL_PASS, TOL_FAIL, key=f"roundtrip:var->obj->var:{t}:{fl(flag)}:via-tomography" + tag, info=info0)
+    tag = tag0
     ok, e = ctx.attempt(tomo.generate_empty_estimation_obj_with_setting_info)
     if ok and gen.type_of(e) == t:
         ok, ev = ctx.attempt(e.to_var)                          # hooked
